@@ -12,7 +12,8 @@ EXTRA = {  # checks besides the seed's own property that are worth running again
     "C02-A": ["C01"], "C03-B": ["C04"], "C04-B": ["C14"], "C05-B": ["C06"], "C06-A": ["C05"], "C06-B": ["C07"],
     "C07-A": ["C18"], "C07-B": ["C18"], "C08-B": ["C07", "C18"], "C09-A": ["C19"], "C10-A": ["C11"], "C10-B": ["C13"],
     "C11-A": ["C10"], "C13-A": ["C10"], "C14-A": ["C02"], "C15-A": ["C04"], "C18-A": ["C07"], "C18-B": ["C07"],
-    "C19-A": ["C09"],
+    "C19-A": ["C09"], "C04-E": ["C14"], "C04-F": ["C15"], "C07-G": ["C14"], "C18-E": ["C07"], "C01-F": ["C02"],
+    "C07-C": ["C18"], "C07-D": ["C18"],
 }
 
 
